@@ -65,6 +65,7 @@ struct Pending {
 	uint32_t iv_before[3];
 	int step_kind = -1, step_mut = -1;
 	bool success_seen = false, alloc_failure_seen = false, chained = false;
+	bool interrupted = false; // an EINTR was returned inside this exchange
 	time_t t_query = 0;
 	wire::Bytes offender;
 };
@@ -138,7 +139,7 @@ struct Engine {
 	// threads
 	sem_t sem_main, sem_park, sem_mid;
 	long midstop_countdown = 0; // C07: rtr_stop() arrives at the n-th transport call / table-lock release of the exchange in progress (cancellation disabled there)
-	bool midstop_active = false;
+	bool midstop_active = false, stop_in_progress = false;
 	std::vector<int> state_seq;
 	std::ostringstream trace;
 	int n_success = 0, n_queries = 0;
